@@ -11,10 +11,11 @@ cd $WT
 PLACE=$(python3 -c "import json;print(json.load(open('$SRC/meta.json')).get('demo_placement','tests/seed_demo.rs'))")
 mkdir -p $(dirname $PLACE); cp $SRC/demo.rs $PLACE
 TESTNAME=$(basename $PLACE .rs)
-cargo test --offline --test $TESTNAME >/tmp/vs_$ID.base.log 2>&1; BASE=$?
+DEMOFLAGS=$(python3 -c "import json;print(json.load(open('$SRC/meta.json')).get('demo_rustflags',''))")
+RUSTFLAGS="$DEMOFLAGS" cargo test --offline --test $TESTNAME >/tmp/vs_$ID.base.log 2>&1; BASE=$?; grep -q "test result: ok. 0 passed" /tmp/vs_$ID.base.log && BASE=9
 git apply $SRC/patch.diff; APPLY=$?
 cargo build --offline >/tmp/vs_$ID.build.log 2>&1; BUILD=$?
-cargo test --offline --test $TESTNAME >/tmp/vs_$ID.mut.log 2>&1; MUT=$?
+RUSTFLAGS="$DEMOFLAGS" cargo test --offline --test $TESTNAME >/tmp/vs_$ID.mut.log 2>&1; MUT=$?
 rm -f $PLACE
 cargo test --workspace --no-fail-fast --offline >/tmp/vs_$ID.suite.log 2>&1; SUITE=$?
 NPASS=$(grep -E "^test result: ok" /tmp/vs_$ID.suite.log | sed 's/.*ok. \([0-9]*\) passed.*/\1/' | paste -sd+ | bc)
